@@ -74,6 +74,33 @@ func checkAliasPairs(r *Report, p *Prog) {
 	pk := p.ByPath[modPath]
 	sc := pk.Types.Scope()
 	n := 0
+	// the metadata roots and the duration/instant types are marshalled by value (xml.Marshal(ed); Duration and RelaxedTime
+	// fields of structs that are themselves passed by value): encoding/xml finds a pointer-receiver marshaller only on
+	// addressable values and otherwise falls back, silently, to the default field encoding (raw nanoseconds, unrounded
+	// RFC3339Nano), which the library's own reader refuses
+	for _, mt := range []struct{ typ, method string }{
+		{"EntityDescriptor", "MarshalXML"}, {"EntitiesDescriptor", "MarshalXML"}, {"Duration", "MarshalText"}, {"RelaxedTime", "MarshalText"},
+	} {
+		tn, _ := sc.Lookup(mt.typ).(*types.TypeName)
+		if tn == nil {
+			continue
+		}
+		named, _ := tn.Type().(*types.Named)
+		if named == nil {
+			continue
+		}
+		cons := fmt.Sprintf("%s.%s is found when the value is marshalled by value", mt.typ, mt.method)
+		sel := p.SSA.MethodSets.MethodSet(named).Lookup(pk.Types, mt.method)
+		if sel == nil {
+			if psel := p.SSA.MethodSets.MethodSet(types.NewPointer(named)).Lookup(pk.Types, mt.method); psel != nil {
+				r.Bad(rule, cons, p.Pos(psel.Obj().Pos()), "the method has a pointer receiver: a "+mt.typ+" marshalled by value (a top-level value, a field of a struct passed by value) is written in the default encoding, not the xsd text form, and does not re-parse")
+			} else {
+				r.Bad(rule, cons, "-", "the type has no "+mt.method+" method")
+			}
+			continue
+		}
+		r.OK(rule, cons, p.Pos(sel.Obj().Pos()), "value receiver")
+	}
 	for _, name := range sc.Names() {
 		tn, ok := sc.Lookup(name).(*types.TypeName)
 		if !ok {
